@@ -563,9 +563,30 @@ func loadBaseGrammars() {
 	}
 }
 
+// documents at the corners of the grammar's structure
+var cornerDocs = []string{
+	"", " ", "\n", "\n\n\n", "\t \r\n", "\ufeff", "\ufeff\n", "language", "language x", "language x(go)", "language x(go);", "language x(go);\n",
+	"language x(go);\n\n:: lexer\n", "language x(go);\n\n:: lexer\n\nid: /[a-z]+/\n", "language x(go);\n\n:: parser\n", "language x(go);\n\n:: parser\n\n%input a;\na: ;\n",
+	":: lexer\n\nid: /x/\n", ":: parser\n\na: ;\n", "language x(go);\nlanguage y(go);\n:: lexer\nid: /x/\n",
+	synthHeader + ":: lexer\n\nid: /[a-z]+/\n\n:: parser\n\n%input id;\n",
+	synthHeader + ":: lexer\n\nid: /[a-z]+/\n\n:: parser\n\n%input root;\nroot: root ;\n",
+	synthHeader + ":: lexer\n\nid: /[a-z]+/\n\n:: parser\n\n%input root;\nroot: set() ;\n",
+	synthHeader + ":: lexer\n\nid: /[a-z]+/\n\n:: parser\n\n%input root;\nroot: tpl<+Q> ;\ntpl<flag Q>: [Q] id ;\n%flag Q;\n",
+	synthHeader + ":: lexer\n\nid: /[a-z]+/\ns: \"abc",
+	synthHeader + ":: lexer\n\nid: /[a-z]+",
+	synthHeader + ":: lexer\n\nid {int}: /[a-z]+/ { $$ = 1",
+	synthHeader + ":: lexer\n\nws: /[ \\t]*/ (space)\nid: /{letter}+/\n\n:: parser\n\n%input root;\nroot: id ;\n",
+	synthHeader + ":: lexer\n\nid: /[a-z]+/\n\n:: parser\n\n%input root;\nroot: " + strings.Repeat("(", 200) + "id" + strings.Repeat(")", 200) + " ;\n",
+	synthHeader + ":: lexer\n\nid: /[a-z]+/\n\n:: parser\n\n%input root;\nroot: id ;\n\n%%\n{{define \"x\"}}\n",
+	"language x(go);\n\nlang = \"x\"\neventBased = \"yes\"\nunknownOption = 5\n:: lexer\nid: /x/\n",
+}
+
 func genDoc(src *sim.Src, prev string) string {
 	f := src.Fork()
 	var text string
+	if f.Chance(1, 12) {
+		return cornerDocs[f.Draw(len(cornerDocs))]
+	}
 	switch {
 	case prev != "" && f.Chance(6, 10):
 		text = prev // an edit of the previous version
